@@ -32,6 +32,9 @@ REQS = {
     # parameters translated into objects of an importable class: nothing may be cached in the Config
     "bean20": {"jsonrpc": "v2", "id": "int", "method": "m:echo", "params": "bean"},
     "bean10": {"id": "int", "method": "m:echo", "params": "bean"},
+    # the method returns (does not raise) a Fault it built itself with the default configuration
+    "retfault20": {"jsonrpc": "v2", "id": "int", "method": "m:retfault", "params": "args1"},
+    "retfault10": {"id": "int", "method": "m:retfault", "params": "args1"},
 }
 
 
@@ -74,7 +77,7 @@ def obligations(tier, H):
             spec, leaves = req(name, "")
             add(dict(cfg, request=spec, case=[name]), leaves)
         for combo in itertools.product(sorted(REQS), repeat=2):
-            special = [c for c in combo if c.startswith("marker_") or c.startswith("bean")]
+            special = [c for c in combo if c.startswith("marker_") or c.startswith("bean") or c.startswith("retfault")]
             if special and (len(special) == 2 or not any(c in ("call20", "call10") for c in combo)):
                 continue  # the added request kinds are paired with plain calls only
             if cfg.get("jsonclass") is False and ("badconv" in "".join(combo) or "bean" in "".join(combo)):
@@ -93,7 +96,7 @@ def obligations(tier, H):
     hist = sorted(REQS) + ["batch:call10+call20", "batch:notif20+raise10", "nd_int"]
     for cfg in (configs if thorough else configs[:4]):
         for a, b in itertools.product(hist, repeat=2):
-            special = [c for c in (a, b) if c.startswith("marker_") or c.startswith("bean")]
+            special = [c for c in (a, b) if c.startswith("marker_") or c.startswith("bean") or c.startswith("retfault")]
             if special and (len(special) == 2 or not any(c in ("call20", "call10") for c in (a, b))):
                 continue
             if not thorough and cfg != configs[0] and not (a.endswith("10") or a.startswith("batch")):
@@ -120,7 +123,7 @@ def run(report, tier):
 
     report.explanation = (
         "CrossHair executes the real dispatcher symbolically: (a) per request kind (1.0/2.0 call, "
-        "failing, unknown, bad arity, failing conversion, notification, invalid) and per pair of them in "
+        "failing, returning a Fault of its own, unknown, bad arity, failing conversion, notification, invalid) and per pair of them in "
         "one batch, x server version x dispatch configuration, the reply form must be 1.0 for entries "
         "without 'jsonrpc' and the server's own otherwise; (b) for every ordered pair (r1, r2) the reply to "
         "r2 after r1 on one dispatcher equals the reply to r2 on a fresh one; (c) after every request the "
